@@ -83,6 +83,7 @@ type c03Engine struct {
 	usedInsp map[string]bool
 	usedRaw  map[string]bool
 	Sources  int
+	Analysed []c03Source
 }
 
 type c03Cons struct {
@@ -378,24 +379,69 @@ func c03SingleBool(sig *types.Signature) bool {
 	return ok && b.Kind() == types.Bool
 }
 
+// impliesDim: does "v has the value want" imply that dim is established for the
+// alias set?  Looks through negation, comparison with a bool constant and
+// boolean phis (x := a && b; if x — every operand that can produce `want`
+// must itself imply dim when it has that value).
+func (e *c03Engine) impliesDim(v ssa.Value, a *c03Alias, dim string, want bool, depth int) (implied, vacuous bool) {
+	if v == nil || depth > 8 {
+		return false, false
+	}
+	switch x := v.(type) {
+	case *ssa.Const:
+		if IsConstBool(!want)(Desc(x)) {
+			return true, true // can never have the value `want`
+		}
+		return false, false
+	case *ssa.UnOp:
+		if x.Op == token.NOT {
+			return e.impliesDim(x.X, a, dim, !want, depth+1)
+		}
+	case *ssa.BinOp:
+		if x.Op == token.EQL || x.Op == token.NEQ {
+			for _, pr := range [][2]ssa.Value{{x.X, x.Y}, {x.Y, x.X}} {
+				if k, ok := pr[1].(*ssa.Const); ok {
+					if IsConstBool(true)(Desc(k)) || IsConstBool(false)(Desc(k)) {
+						kv := IsConstBool(true)(Desc(k))
+						w := want
+						if (x.Op == token.EQL) != kv {
+							w = !w
+						}
+						return e.impliesDim(pr[0], a, dim, w, depth+1)
+					}
+				}
+			}
+		}
+	case *ssa.Phi:
+		n := 0
+		for _, ed := range x.Edges {
+			ok, vac := e.impliesDim(ed, a, dim, want, depth+1)
+			if !ok {
+				return false, false
+			}
+			if !vac {
+				n++
+			}
+		}
+		return true, n == 0
+	}
+	onT, onF := e.atomPaths(v, a)
+	if want {
+		return onT[dim] || onT["*"], false
+	}
+	return onF[dim] || onF["*"], false
+}
+
 func (e *c03Engine) barrier(a *c03Alias, dim string) Barrier {
 	return Barrier{Name: "verified:" + dim, Edge: func(cond *Expr) (bool, int) {
-		atom, pol := Truthy(cond)
-		if atom == nil || atom.V == nil {
+		if cond == nil || cond.V == nil {
 			return false, 0
 		}
-		onT, onF := e.atomPaths(atom.V, a)
-		if onT[dim] || onT["*"] {
-			if pol {
-				return true, 0
-			}
-			return true, 1
-		}
-		if onF[dim] || onF["*"] {
-			if pol {
-				return true, 1
-			}
+		if ok, vac := e.impliesDim(cond.V, a, dim, true, 0); ok && !vac {
 			return true, 0
+		}
+		if ok, vac := e.impliesDim(cond.V, a, dim, false, 0); ok && !vac {
+			return true, 1
 		}
 		return false, 0
 	}}
@@ -465,9 +511,24 @@ func (e *c03Engine) summary(g *ssa.Function, idx int) *c03Summary {
 	}
 	edges := c03ReturnEdges(g)
 	cands := map[string]bool{}
-	collect := func(v ssa.Value) {
+	var collect func(v ssa.Value)
+	collect = func(v ssa.Value) {
 		if v == nil {
 			return
+		}
+		switch x := v.(type) {
+		case *ssa.Phi:
+			for _, ed := range x.Edges {
+				if _, isPhi := ed.(*ssa.Phi); !isPhi {
+					collect(ed)
+				}
+			}
+			return
+		case *ssa.UnOp:
+			if x.Op == token.NOT {
+				collect(x.X)
+				return
+			}
 		}
 		t, f := e.atomPaths(v, a)
 		for k := range t {
@@ -482,6 +543,7 @@ func (e *c03Engine) summary(g *ssa.Function, idx int) *c03Summary {
 			continue
 		}
 		if iff, ok := b.Instrs[len(b.Instrs)-1].(*ssa.If); ok {
+			collect(iff.Cond)
 			if atom, _ := Truthy(condOf(iff)); atom != nil {
 				collect(atom.V)
 			}
@@ -500,7 +562,7 @@ func (e *c03Engine) summary(g *ssa.Function, idx int) *c03Summary {
 	bars := map[string]Barrier{}
 	established := func(ed c03RetEdge, d string) bool {
 		if ed.val != nil {
-			if t, _ := e.atomPaths(ed.val, a); t[d] || t["*"] {
+			if ok, _ := e.impliesDim(ed.val, a, d, true, 0); ok {
 				return true
 			}
 		}
@@ -977,6 +1039,7 @@ func (e *c03Engine) Run(primary []c03Source) {
 		}
 		seen[sk{s.At, s.Vals[0]}] = true
 		e.Sources++
+		e.Analysed = append(e.Analysed, s)
 		rule := e.rule(s.Fn)
 		findings, free := e.analyse(s.Fn, []Point{pointAfter(s.At)}, s.Vals)
 		base := fmt.Sprintf("%s|%s|from %s", rule, fnKey(s.Fn), s.Desc)
